@@ -13,7 +13,10 @@ EXTRA = {'C03-B': ['C17'], 'C05-B': ['C02', 'C17'], 'C16-B': ['C19'], 'C11-B': [
 ABSORBED = {'C02-G': 'F28 (318b962): the wrap test which this change altered was replaced by counting the records; the patch no longer applies',
             'C04-F': 'F22 (add28c3): the marker is saved before the payload of a skipped BigMessage is discarded',
             'C16-C': 'F23 (5fa9fa0): abandoned records are deleted, so no leftovers count against the limits of a later adoption',
-            'C16-F': 'F23 (5fa9fa0): abandoned records are deleted, so no stale storage sequence numbers remain'}
+            'C16-F': 'F23 (5fa9fa0): abandoned records are deleted, so no stale storage sequence numbers remain',
+            'C03-G': 'F28 (318b962): the compensation line which this change altered fed counters which are derived from the number of records now; the demonstration no longer fails',
+            'C07-F': 'F22 (add28c3): the acknowledgement goes out before the payload of a skipped BigMessage is discarded; the demonstration waits for a return which no longer comes at that point (it fails on the repaired tree without the change too)',
+            'C08-H': 'its demonstration no longer fails on the repaired tree (since F24 the resend writes a DUP packet as two buffers and the scripted stall no longer hits); applied as a mutant (tools/mutant.sh seeded/C08-H/patch.diff C08) the change is still caught by C08'}
 ids = sys.argv[1:] or sorted(os.path.basename(d) for d in glob.glob(os.path.join(here, 'seeded', 'C*-*')))
 out = os.path.join(here, 'seeded', 'RESULTS.json')
 res = json.load(open(out)) if os.path.exists(out) else {}
